@@ -214,7 +214,9 @@ fn parse_array(data: &[u8]) -> Result<Option<(RespFrame, usize)>> {
     }
     
     let len = len as usize;
-    let mut elements = Vec::with_capacity(len);
+    // Never reserve by a declared length that has not been received: every element takes
+    // at least one byte, so the bytes at hand bound the useful capacity
+    let mut elements = Vec::with_capacity(len.min(data.len()));
     let mut total_consumed = header_consumed;
     
     for _ in 0..len {
@@ -279,7 +281,7 @@ fn parse_map(data: &[u8]) -> Result<Option<(RespFrame, usize)>> {
     let len = len_str.parse::<usize>()
         .map_err(|_| FerrousError::Protocol("Invalid map length".into()))?;
     
-    let mut pairs = Vec::with_capacity(len);
+    let mut pairs = Vec::with_capacity(len.min(data.len()));
     let mut total_consumed = header_consumed;
     
     for _ in 0..len {
@@ -319,7 +321,7 @@ fn parse_set(data: &[u8]) -> Result<Option<(RespFrame, usize)>> {
     let len = len_str.parse::<usize>()
         .map_err(|_| FerrousError::Protocol("Invalid set length".into()))?;
     
-    let mut elements = Vec::with_capacity(len);
+    let mut elements = Vec::with_capacity(len.min(data.len()));
     let mut total_consumed = header_consumed;
     
     for _ in 0..len {
